@@ -98,6 +98,9 @@ BASIC = {
         # children that are falsy in a boolean context
         dict(name="FLeaf", base="Leaf", fields=[], body="def __len__(self):\n        return 0\n"),
         dict(name="FUnary", base="Unary", fields=[], body="def __bool__(self):\n        return False\n"),
+        # slotted models ("subclasses may be slotted"): @dataclass(slots=True) builds the class twice
+        dict(name="SLeaf", base="ASTNode", slots=True, fields=[P("a", "str", "str")]),
+        dict(name="SUnary", base="ASTNode", slots=True, fields=[C("child", "one", ["ASTNode"], "ASTNode")]),
     ],
 }
 
@@ -222,7 +225,7 @@ def render_py(zoo: dict, legacy: bool = False, postponed: bool = True) -> str:
     pre = zoo.get("prefix", "")
     for c in zoo["classes"]:
         base = c["base"] if c["base"] == "ASTNode" else pre + c["base"]
-        deco = "@dataclass" if legacy else "@dataclass(frozen=True)"
+        deco = "@dataclass" if legacy else ("@dataclass(frozen=True, slots=True)" if c.get("slots") else "@dataclass(frozen=True)")
         lines.append(deco)
         lines.append(f"class {pre}{c['name']}({base}):")
         body = []
